@@ -315,6 +315,7 @@ type CaseC19Own struct {
 	Owners  int `json:"owners"`
 	Readers int `json:"readers"`
 	Iters   int `json:"iters"`
+	Millis  int `json:"millis,omitempty"` // if set: owners keep cycling for this long instead of a fixed number of iterations
 }
 
 func oracleC19Own(c *CaseC19Own) *Failure {
@@ -346,7 +347,8 @@ func oracleC19Own(c *CaseC19Own) *Failure {
 			defer wg.Done()
 			<-start
 			name := names[o]
-			for it := 0; it < c.Iters && !stop.Load(); it++ {
+			deadline := time.Now().Add(time.Duration(c.Millis) * time.Millisecond)
+			for it := 0; (c.Millis == 0 && it < c.Iters || c.Millis > 0 && time.Now().Before(deadline)) && !stop.Load(); it++ {
 				mine := &testSvc{name: name, id: o*1000000 + it + 1}
 				if !codec.Registry(mine) {
 					report(failf("C19/registry/lost-update", "owner %d, iteration %d: Registry(%s) returned false although only this goroutine uses the name and its previous Remove had returned", o, it, name))
@@ -461,10 +463,15 @@ func TestC19(t *testing.T) {
 					continue
 				}
 				n := iters
-				if cfg[1] > 0 {
-					n = iters / 10 // with readers spinning on the lock every owner step is much slower
-				}
 				c := &CaseC19Own{Procs: procs, Owners: cfg[0], Readers: cfg[1], Iters: n}
+				if cfg[1] > 0 {
+					// readers looking up names that owners keep removing and re-registering: run for a fixed time
+					c.Iters, c.Millis, c.Readers = 0, 1500, 2*procs
+					if Thorough() {
+						c.Millis = 8000
+					}
+					n = 0
+				}
 				Col.Case(Hash64(JSONOf(c)), true, "owner-cycles-under-contention")
 				Col.Class("owner-cycles-executed", int64(n*cfg[0]))
 				Direct(t, "C19", "c19own", fmt.Sprintf("owners/%d/%d/%d", procs, cfg[0], cfg[1]), c, oracleC19Own)
